@@ -248,7 +248,7 @@ impl Ctx {
             .unwrap_or_else(|| std::thread::available_parallelism().map(|n| n.get()).unwrap_or(8).min(16));
         let start = Instant::now();
         let budget = budget.unwrap_or(match tier {
-            Tier::Quick => 600,
+            Tier::Quick => 1300, // below the driver's 1500 s watchdog; quick tiers need ~10-100 s on an idle machine
             Tier::Thorough => 3 * 3600,
         });
         // library panics are results, not noise
